@@ -62,7 +62,8 @@ const BASE_US: u64 = 1_700_000_000_000_000;
 #[derive(Clone, Debug)]
 enum Cmd {
     Ring { entries: u32 },
-    Push { r: usize, kind: String, f: usize, off: u64, bytes: Vec<u8>, len: usize, tgt: u64, bad: bool },
+    /// tag = the user_data put on the entry; 0 = a fresh one (the entry's own number)
+    Push { r: usize, tag: u64, kind: String, f: usize, off: u64, bytes: Vec<u8>, len: usize, tgt: u64, bad: bool },
     Submit { r: usize },
     Sync { r: usize },
     Pop { r: usize },
@@ -91,6 +92,7 @@ fn parse_cmd(v: &Value) -> Option<Cmd> {
         "ring" => Cmd::Ring { entries: us("entries") as u32 },
         "push" => Cmd::Push {
             r: us("r"),
+            tag: us("tag") as u64,
             kind: v["kind"].as_str()?.to_string(),
             f: us("f"),
             off: us("off") as u64,
@@ -165,6 +167,10 @@ struct OpRec {
     bad: bool,
     gen: u64,
     hopen: bool,
+    tag: u64,
+    ring: usize,
+    /// the consumer's own bookkeeping: "rej" | "sq" | "pend" | "done" | "lost"
+    st: &'static str,
 }
 
 /// What survives a crash of the host: the consumer's bookkeeping and its buffers.
@@ -179,6 +185,18 @@ struct Persist {
     fmode: Vec<String>,
     now_rel: u64,
     incarnation: u64,
+}
+
+impl Persist {
+    /// the consumer's bookkeeping of a crash: every handle is gone, every queued or submitted entry is lost
+    fn on_crash(&mut self) {
+        for o in self.fopen.iter_mut() {
+            *o = false;
+        }
+        for o in self.ops.iter_mut().filter(|o| o.st == "sq" || o.st == "pend") {
+            o.st = "lost";
+        }
+    }
 }
 
 struct FileSlot {
@@ -224,6 +242,9 @@ fn open_with(mode: &str, path: &str) -> std::io::Result<sfs::File> {
     match mode {
         "ro" => o.read(true),
         "wo" => o.write(true),
+        "ao" => o.append(true),                   // append only (no write(true)): still a writable handle
+        "wa" => o.write(true).append(true),
+        "ra" => o.read(true).append(true),
         _ => o.read(true).write(true),
     };
     o.open(path)
@@ -309,11 +330,16 @@ impl Env {
                 pp.nrings += 1;
                 json!({"ev":"ring","r":pp.nrings,"entries":entries,"depth":depth})
             }
-            Cmd::Push { r, kind, f, off, bytes, len, tgt, bad } => self.push(*r, kind, *f, *off, bytes, *len, *tgt, *bad),
+            Cmd::Push { r, tag, kind, f, off, bytes, len, tgt, bad } => self.push(*r, *tag, kind, *f, *off, bytes, *len, *tgt, *bad),
             Cmd::Submit { r } => {
                 let res = self.rings[*r - 1].as_ref().expect("ring").submit();
                 match res {
-                    Ok(n) => json!({"ev":"submit","r":r,"ok":true,"n":n}),
+                    Ok(n) => {
+                        for o in self.p.borrow_mut().ops.iter_mut().filter(|o| o.ring == *r && o.st == "sq") {
+                            o.st = "pend";
+                        }
+                        json!({"ev":"submit","r":r,"ok":true,"n":n})
+                    }
                     Err(_) => json!({"ev":"submit","r":r,"ok":false,"n":0}),
                 }
             }
@@ -332,6 +358,9 @@ impl Env {
                 self.cqs[*r - 1] = None;
                 let ring = self.rings[*r - 1].take();
                 drop(ring);
+                for o in self.p.borrow_mut().ops.iter_mut().filter(|o| o.ring == *r && (o.st == "sq" || o.st == "pend")) {
+                    o.st = "lost";
+                }
                 json!({"ev":"dropring","r":r})
             }
             Cmd::Close { f } => {
@@ -372,9 +401,10 @@ impl Env {
     }
 
     #[allow(clippy::too_many_arguments)]
-    fn push(&mut self, r: usize, kind: &str, f: usize, off: u64, bytes: &[u8], len: usize, tgt: u64, bad: bool) -> Value {
+    fn push(&mut self, r: usize, tag: u64, kind: &str, f: usize, off: u64, bytes: &[u8], len: usize, tgt: u64, bad: bool) -> Value {
         let mut pp = self.p.borrow_mut();
         let ud = pp.ops.len() as u64 + 1;
+        let tag = if tag == 0 { ud } else { tag };
         let payload: Box<[u8]> = bytes.to_vec().into_boxed_slice();
         let buf = if kind == "read" {
             pp.arena.push(vec![FILL; len].into_boxed_slice());
@@ -393,18 +423,21 @@ impl Env {
             "cancel" => opcode::AsyncCancel::new(tgt).build(),
             k => panic!("kind {k}"),
         };
-        let mut entry = entry.user_data(ud);
+        let mut entry = entry.user_data(tag);
         if bad {
             entry = entry.flags(squeue::Flags::IO_LINK);
         }
         let (gen, hopen) = if f >= 1 { (pp.fgen[f - 1], pp.fopen[f - 1]) } else { (0, false) };
         let (llo, lhi) = pp.cfg.bounds(kind, bad);
-        pp.ops.push(OpRec { kind: kind.to_string(), f, off, payload, buf, len, bad, gen, hopen });
+        pp.ops.push(OpRec { kind: kind.to_string(), f, off, payload, buf, len, bad, gen, hopen, tag, ring: r, st: "rej" });
         drop(pp);
         let ring = self.rings[r - 1].as_mut().expect("ring");
         let ok = unsafe { ring.submission().push(&entry).is_ok() };
         let sq = ring.submission().len();
-        json!({"ev":"push","r":r,"ud":ud,"kind":kind,"f":f,"off":off,"bytes":bytes,"len":len,"tgt":tgt,
+        if ok {
+            self.p.borrow_mut().ops[ud as usize - 1].st = "sq";
+        }
+        json!({"ev":"push","r":r,"ud":ud,"tag":tag,"kind":kind,"f":f,"off":off,"bytes":bytes,"len":len,"tgt":tgt,
                "bad":bad,"llo":llo,"lhi":lhi,"ok":ok,"sq":sq})
     }
 
@@ -419,9 +452,22 @@ impl Env {
         let Some(c) = got else {
             return json!({"ev":"none","r":r});
         };
-        let ud = c.user_data();
+        let tag = c.user_data();
         let res = c.result();
         let tw = self.twin();
+        // the completion carries only the user_data: it is attributed to the lowest-numbered entry
+        // with that user_data that is owed a completion on this ring (entries tagged alike are
+        // copies of each other, so the twin does the same whichever of them really completed)
+        let ud: u64 = {
+            let mut pp = self.p.borrow_mut();
+            match pp.ops.iter().position(|o| o.tag == tag && o.ring == r && o.st == "pend") {
+                Some(i) => {
+                    pp.ops[i].st = "done";
+                    i as u64 + 1
+                }
+                None => 0,
+            }
+        };
         let mut data: Vec<u8> = Vec::new();
         let mut exp: i64 = 0;
         let mut expdata: Vec<u8> = Vec::new();
@@ -466,7 +512,7 @@ impl Env {
             }
         }
         let (files, tfiles) = self.read_files();
-        json!({"ev":"cqe","r":r,"ud":ud,"res":res,"data":data,"exp":exp,"expdata":expdata,"files":files,"tfiles":tfiles})
+        json!({"ev":"cqe","r":r,"tag":tag,"ud":ud,"res":res,"data":data,"exp":exp,"expdata":expdata,"files":files,"tfiles":tfiles})
     }
 
     fn pop_ev(&mut self, r: usize) -> Value {
@@ -595,12 +641,7 @@ impl Direct {
         self.fs.lock().unwrap().crash();
         self.iou.lock().unwrap().crash();
         twin.lock().unwrap().crash();
-        {
-            let mut pp = self.p.borrow_mut();
-            for o in pp.fopen.iter_mut() {
-                *o = false;
-            }
-        }
+        self.p.borrow_mut().on_crash();
         let p = self.p.clone();
         let mut env = self.entered(|| Env::setup(p));
         env.rings = zombies;
@@ -694,11 +735,11 @@ fn compare(pred: &Value, obs: &Value) -> Result<bool, String> {
                 return Err("some".into());
             }
             if some {
-                if pred["ud"] != obs["ud"] {
+                if pred["tag"] != obs["tag"] {
                     if pred["amb"].as_bool().unwrap_or(false) {
                         return Ok(false);
                     }
-                    return Err("ud".into());
+                    return Err("tag".into());
                 }
                 for k in ["res", "data", "files"] {
                     if !same(&pred[k], &obs[k]) {
@@ -848,6 +889,9 @@ struct Shadow {
     next_ud: u64,
     fopen: Vec<bool>,
     fwritable: Vec<bool>,
+    fgen: Vec<u64>,
+    /// accepted write / fsync pushes: (the command with its user_data filled in, handle generation)
+    pushed: Vec<(Cmd, u64)>,
 }
 
 fn gen_cmd(rng: &mut SmallRng, sh: &Shadow, cfg: &RunCfg, allow_crash: bool, sim: bool) -> Cmd {
@@ -867,15 +911,29 @@ fn gen_cmd(rng: &mut SmallRng, sh: &Shadow, cfg: &RunCfg, allow_crash: bool, sim
         let k = rng.random_range(0..100);
         let f = rng.random_range(1..=cfg.nf);
         let bad = rng.random_range(0..14) == 0;
+        // a copy of an outstanding write / fsync of this ring under the same user_data
+        let dups: Vec<&(Cmd, u64)> = sh
+            .pushed
+            .iter()
+            .filter(|(c, g)| match c {
+                Cmd::Push { r: rr, tag, f, .. } => {
+                    *rr == r && sh.fopen[*f - 1] && sh.fgen[*f - 1] == *g && sh.outstanding.iter().any(|(t, r2)| t == tag && *r2 == r)
+                }
+                _ => false,
+            })
+            .collect();
+        if !dups.is_empty() && rng.random_range(0..100) < 22 {
+            return dups[rng.random_range(0..dups.len())].0.clone();
+        }
         if k < 30 {
             let n = rng.random_range(1..=4);
             let v = rng.random_range(2..=7u8);
             let bytes: Vec<u8> = (0..n).map(|_| if rng.random_range(0..3) == 0 { v + 1 } else { v }).collect();
-            Cmd::Push { r, kind: "write".into(), f, off: rng.random_range(0..6), bytes, len: 0, tgt: 0, bad }
+            Cmd::Push { r, tag: 0, kind: "write".into(), f, off: rng.random_range(0..6), bytes, len: 0, tgt: 0, bad }
         } else if k < 55 {
-            Cmd::Push { r, kind: "read".into(), f, off: rng.random_range(0..6), bytes: vec![], len: rng.random_range(1..=5), tgt: 0, bad }
+            Cmd::Push { r, tag: 0, kind: "read".into(), f, off: rng.random_range(0..6), bytes: vec![], len: rng.random_range(1..=5), tgt: 0, bad }
         } else if k < 66 {
-            Cmd::Push { r, kind: "fsync".into(), f, off: 0, bytes: vec![], len: 0, tgt: 0, bad }
+            Cmd::Push { r, tag: 0, kind: "fsync".into(), f, off: 0, bytes: vec![], len: 0, tgt: 0, bad }
         } else {
             let t = rng.random_range(0..100);
             let mine: Vec<u64> = sh.outstanding.iter().filter(|(_, rr)| *rr == r).map(|(u, _)| *u).collect();
@@ -890,7 +948,7 @@ fn gen_cmd(rng: &mut SmallRng, sh: &Shadow, cfg: &RunCfg, allow_crash: bool, sim
             } else {
                 9999
             };
-            Cmd::Push { r, kind: "cancel".into(), f: 0, off: 0, bytes: vec![], len: 0, tgt, bad: rng.random_range(0..25) == 0 }
+            Cmd::Push { r, tag: 0, kind: "cancel".into(), f: 0, off: 0, bytes: vec![], len: 0, tgt, bad: rng.random_range(0..25) == 0 }
         }
     } else if x < 420 {
         Cmd::Submit { r }
@@ -907,7 +965,7 @@ fn gen_cmd(rng: &mut SmallRng, sh: &Shadow, cfg: &RunCfg, allow_crash: bool, sim
         if sh.fopen[f - 1] {
             Cmd::Close { f }
         } else {
-            Cmd::Open { f, mode: ["rw", "rw", "rw", "ro", "wo"][rng.random_range(0..5)].into() }
+            Cmd::Open { f, mode: ["rw", "rw", "rw", "ro", "wo", "ao", "ao", "wa", "ra"][rng.random_range(0..9)].into() }
         }
     } else if x < 955 {
         let f = rng.random_range(1..=cfg.nf);
@@ -943,11 +1001,19 @@ fn shadow_update(sh: &mut Shadow, c: &Cmd, obs: &Value) {
             sh.sq.push(0);
             sh.depth.push(obs["depth"].as_u64().unwrap_or(1) as usize);
         }
-        Cmd::Push { r, .. } => {
+        Cmd::Push { r, tag, kind, f, bad, .. } => {
             sh.next_ud += 1;
+            let t = if *tag == 0 { sh.next_ud } else { *tag };
             if obs["ok"] == true {
                 sh.sq[*r - 1] += 1;
-                sh.outstanding.push((sh.next_ud, *r));
+                sh.outstanding.push((t, *r));
+                if *tag == 0 && !*bad && (kind == "write" || kind == "fsync") {
+                    let mut c2 = c.clone();
+                    if let Cmd::Push { tag, .. } = &mut c2 {
+                        *tag = t;
+                    }
+                    sh.pushed.push((c2, sh.fgen[*f - 1]));
+                }
             }
         }
         Cmd::Submit { r } => sh.sq[*r - 1] = 0,
@@ -958,6 +1024,7 @@ fn shadow_update(sh: &mut Shadow, c: &Cmd, obs: &Value) {
         }
         Cmd::Close { f } => sh.fopen[*f - 1] = false,
         Cmd::Open { f, mode } => {
+            sh.fgen[*f - 1] += 1;
             sh.fopen[*f - 1] = true;
             sh.fwritable[*f - 1] = mode != "ro";
         }
@@ -979,13 +1046,15 @@ fn shadow_update(sh: &mut Shadow, c: &Cmd, obs: &Value) {
 }
 
 fn shadow_cqe(sh: &mut Shadow, ud: u64) {
-    sh.outstanding.retain(|(u, _)| *u != ud);
+    if let Some(i) = sh.outstanding.iter().position(|(u, _)| *u == ud) {
+        sh.outstanding.remove(i);
+    }
     sh.completed.push(ud);
 }
 
 fn random_direct(rng: &mut SmallRng, cfg: &RunCfg, steps: usize) {
     let mut d = Direct::new(cfg);
-    let mut sh = Shadow { next_ud: 0, fopen: vec![true; cfg.nf], fwritable: vec![true; cfg.nf], ..Default::default() };
+    let mut sh = Shadow { next_ud: 0, fopen: vec![true; cfg.nf], fwritable: vec![true; cfg.nf], fgen: vec![1; cfg.nf], ..Default::default() };
     let mut crashes = 0;
     for _ in 0..steps {
         let c = gen_cmd(rng, &sh, cfg, crashes < 2, false);
@@ -996,7 +1065,7 @@ fn random_direct(rng: &mut SmallRng, cfg: &RunCfg, steps: usize) {
             crashes += 1;
         }
         if obs["ev"] == "cqe" {
-            shadow_cqe(&mut sh, obs["ud"].as_u64().unwrap_or(0));
+            shadow_cqe(&mut sh, obs["tag"].as_u64().unwrap_or(0));
         }
         if let Cmd::Drain { r } = &c {
             sh.outstanding.retain(|(_, rr)| rr != r); // approximately
@@ -1121,7 +1190,7 @@ fn random_sim(rng: &mut SmallRng, cfg: &RunCfg, steps: usize, stall_ms: u64, exi
     // warm-up step: the software creates its files and parks on the Notify
     sim.step().expect("warm-up");
     let mut k: u64 = 0; // steps since the warm-up; ring clock = k * tick
-    let mut shd = Shadow { next_ud: 0, fopen: vec![true; cfg.nf], fwritable: vec![true; cfg.nf], ..Default::default() };
+    let mut shd = Shadow { next_ud: 0, fopen: vec![true; cfg.nf], fwritable: vec![true; cfg.nf], fgen: vec![1; cfg.nf], ..Default::default() };
     let mut crashes = 0;
     let mut stalled = false;
     let mut step = |sim: &mut turmoil::Sim<'_>, k: &mut u64, sh: &Rc<RefCell<SimShared>>| {
@@ -1183,7 +1252,7 @@ fn random_sim(rng: &mut SmallRng, cfg: &RunCfg, steps: usize, stall_ms: u64, exi
         let res: Vec<Value> = sh.borrow_mut().results.drain(..).collect();
         for v in res {
             if v["ev"] == "cqe" {
-                shadow_cqe(&mut shd, v["ud"].as_u64().unwrap_or(0));
+                shadow_cqe(&mut shd, v["tag"].as_u64().unwrap_or(0));
             }
         }
         if crash_now {
@@ -1202,12 +1271,7 @@ fn random_sim(rng: &mut SmallRng, cfg: &RunCfg, steps: usize, stall_ms: u64, exi
             }
             sim.crash("h");
             p.borrow().twin.lock().unwrap().crash();
-            {
-                let mut pp = p.borrow_mut();
-                for o in pp.fopen.iter_mut() {
-                    *o = false;
-                }
-            }
+            p.borrow_mut().on_crash();
             sh.borrow_mut().cmds.clear();
             sh.borrow_mut().busy = false;
             sim.bounce("h");
